@@ -10,3 +10,9 @@ case "$ID" in
   all|C01|C05|C06|C07|C08|C11|C13)
     ( cd harness && go build -race -tags verif -o ../bin/vcheck.race ./cmd/vcheck ) ;;
 esac
+case "$ID" in
+  all|C15|C17|C18) ./harness/gen/gen.sh ;;
+esac
+case "$ID" in
+  all|C17) ./harness/gen/gen.sh race ;;
+esac
